@@ -17,7 +17,8 @@ ANALYZER_TARGET = os.path.join(CACHE, "analyzer-target")
 DRIVER_TARGET = os.path.join(CACHE, "driver-target")
 ANALYZER_BIN = os.path.join(ANALYZER_TARGET, "release", "verif-analyzer")
 DRIVER_BIN = os.path.join(DRIVER_TARGET, "release", "verif-driver")
-EVIDENCE_DIR = os.path.join(VERIF, "evidence")
+# evidence under /verif/evidence describes /repo only; runs against a scratch copy (VERIF_REPO) write theirs into the cache
+EVIDENCE_DIR = os.path.join(VERIF, "evidence") if REPO == "/repo" else os.path.join(CACHE, "evidence" + REPO_TAG)
 REPLAY_DIR = os.path.join(VERIF, ".cache", "replay")
 NCPU = os.cpu_count() or 4
 
